@@ -58,6 +58,34 @@ pub fn gen(tier: &str, seed: u64) -> Gen {
         }
     }
     fams.push(("string first / last: every mixed-width haystack x each of its characters as needle x every start / last index".to_string(), nf, thorough));
+    // integer operands just outside the i64 range (they are errors, never wrapped values), and
+    // characters whose lower- or upper-case form is longer than they are, at the end of the string
+    let mut nx = 0;
+    for big in &["9223372036854775808", "18446744073709551615", "0xFFFFFFFFFFFFFFFF", "-9223372036854775809", "0x8000000000000000", "18446744073709551616", "-0xFFFFFFFFFFFFFFFF"] {
+        cases.push(cmd(vec![s("string"), s("range"), s("abcdef"), s("0"), s(big)]));
+        cases.push(cmd(vec![s("string"), s("range"), s("abcdef"), s(big), s("3")]));
+        cases.push(cmd(vec![s("lindex"), s("a b c"), s(big)]));
+        cases.push(cmd(vec![s("string"), s("first"), s("c"), s("abcabc"), s(big)]));
+        cases.push(cmd(vec![s("string"), s("last"), s("c"), s("abcabc"), s(big)]));
+        cases.push(cmd(vec![s("string"), s("equal"), s("-length"), s(big), s("abc"), s("abd")]));
+        cases.push(tl(vec![ts("var"), tl(vec![ts("5")]), tstrs(&[s("incr"), s("v"), s(big)])]));
+        cases.push(tl(vec![ts("var"), tl(vec![ts(big)]), tstrs(&[s("incr"), s("v")])]));
+        nx += 8;
+    }
+    let odd = ["\u{130}", "i\u{307}", "\u{23a}", "\u{2c65}", "\u{df}", "SS", "\u{149}", "\u{1f0}", "A", "a"];
+    for k in &odd {
+        for tail in &odd {
+            for pre in &["", "ab", "\u{e9}"] {
+                let st = format!("{}{}", pre, tail);
+                let kv = Value::from(vec![Value::from(*k), Value::from("x")]).as_str().to_string();
+                cases.push(cmd(vec![s("string"), s("map"), s("-nocase"), kv.clone(), st.clone()]));
+                cases.push(cmd(vec![s("string"), s("map"), kv, st.clone()]));
+                cases.push(cmd(vec![s("string"), s("equal"), s("-nocase"), s(k), st.clone()]));
+                nx += 3;
+            }
+        }
+    }
+    fams.push(("integer operands just outside the i64 range in every index position; string map / equal -nocase over characters whose case forms differ in length, at the end of the string".to_string(), nx, true));
     let per = if thorough { 60_000 } else { 1200 };
     let mut m = 0;
     for _ in 0..per {
